@@ -261,7 +261,7 @@ def run_rc_stage(ctx, prop, stage, tier, res):
             cmd += ['--thorough']
         try:
             r = subprocess.run(cmd, stdout=subprocess.PIPE, stderr=subprocess.STDOUT, text=True, env=env,
-                               timeout=stage.get('timeout', {}).get(tier, 3600))
+                               timeout=stage.get('timeout', {}).get(tier, 1200 if tier == 'quick' else 3600))
             rc, out = r.returncode, r.stdout
         except subprocess.TimeoutExpired:
             rc, out = 124, 'timeout'
